@@ -176,7 +176,7 @@ func (st *c18State) expectPanic(ctx string, wantPanic bool, f func()) (panicked 
 
 func (st *c18State) scribble(b []byte) {
 	for i := range b {
-		b[i] ^= 0xA5
+		b[i] += 0xA5 // (not XOR: two hand-outs that alias each other would cancel)
 	}
 }
 
